@@ -1360,6 +1360,22 @@ def b_nc_remove(tier, rnd):
                     "x octaves {3, 4} by Note", "cases": cases}
 
 
+@battery("nc_interval_note")
+def b_nc_interval_note(tier, rnd):
+    from mingus.containers.note import Note
+    from mingus.containers.note_container import NoteContainer
+    cases = []
+    for nm in ("C", "F#", "Bb", "E##", "Gbb", "B", "Cb", "B#"):
+        for o in (0, 3, 4, 8):
+            for sh in ("1", "b2", "2", "3", "b3", "4", "#4", "5", "b6", "6", "b7", "7", "bb3", "##1"):
+                for up in (True, False):
+                    n = Note(nm, o)
+                    n.channel, n.velocity = (o * 5) % 16, (o * 31 + 7) % 128
+                    cases.append((NoteContainer(["F", "A"]) if (o + len(sh)) % 2 else NoteContainer(), n, sh, up))
+    return {"rule": "8 start names x octaves {0,3,4,8} (own channel/velocity) x 14 shorthands x up/down, into an empty or a "
+                    "filled receiver", "cases": cases}
+
+
 @battery("nc_remove_many")
 def b_nc_remove_many(tier, rnd):
     from mingus.containers.note import Note
